@@ -602,6 +602,159 @@ def real_lp_faults(rep):
                     rep.oracle_failures.append(bad)
 
 
+# ----------------------------------------------------------------------------- public helpers under faults
+
+
+def recursion_limit_apis():
+    """every function of the tree under test whose source calls sys.setrecursionlimit (found by parsing the sources)"""
+    import ast
+    import os
+
+    found = []
+    root = os.path.join(core.REPO, "src", "optyx")
+    for dp, _, files in os.walk(root):
+        for fn in files:
+            if not fn.endswith(".py"):
+                continue
+            path = os.path.join(dp, fn)
+            try:
+                tree = ast.parse(open(path).read())
+            except SyntaxError:
+                continue
+            for node in ast.walk(tree):
+                if isinstance(node, (ast.FunctionDef, ast.AsyncFunctionDef)) and "setrecursionlimit" in ast.unparse(node):
+                    inner = [n for n in ast.walk(node) if n is not node and isinstance(n, ast.FunctionDef)
+                             and "setrecursionlimit" in ast.unparse(n)]
+                    if not inner:
+                        found.append((os.path.relpath(path, root), node.name))
+    return sorted(set(found))
+
+
+HELPER_BODIES = ["raise", "solve-entry", "solve-obj-0", "solve-grad-1", "solve-con-2", "solve-hess-0", "lp-entry",
+                 "nested-raise", "nested-solve", "decorator-raise", "generator-close"]
+
+
+def helper_case(data):
+    """`with increased_recursion_limit(n): body` left by an exception of class `cls` raised directly in the body,
+    at the entry of the solver, or at the k-th objective / gradient / constraint / Hessian evaluation of a real solve
+    inside the block; nested uses; use as a decorator; a generator suspended inside the block being closed.
+    Afterwards sys.getrecursionlimit() must be what it was before (and inside the block it must be n)."""
+    import scipy.optimize as SO
+
+    import optyx
+    helper = optyx.increased_recursion_limit
+    cls = {c.__name__: c for c in CLASSES}[data["cls"]]
+    before = sys.getrecursionlimit()
+    n1, n2 = before + data["dn1"], before + data["dn2"]
+    seen = {}
+    body = data["body"]
+
+    def work():
+        seen["inside"] = sys.getrecursionlimit()
+        if body in ("raise", "nested-raise", "decorator-raise"):
+            raise cls("injected fault")
+        if body == "lp-entry":
+            o_lp = SO.linprog
+
+            def bad_lp(*a, **k):
+                raise cls("injected fault")
+            SO.linprog = bad_lp
+            try:
+                return base.build_problem(base.SHAPES["E"]["spec"])[0].solve(method="auto")
+            finally:
+                SO.linprog = o_lp
+        kind, k = ("entry", 0) if body in ("solve-entry", "nested-solve") else (body.split("-")[1], int(body.split("-")[2]))
+        out = real_fault_run(REAL_SHAPES[data["shape"]], data["method"], kind, k, cls)
+        if "exception" in out:
+            raise out["exception"]
+        return out.get("solution")
+
+    result = {}
+    try:
+        try:
+            if body.startswith("nested"):
+                with helper(n1):
+                    mid = sys.getrecursionlimit()
+                    try:
+                        with helper(n2):
+                            work()
+                    finally:
+                        seen["between"] = (sys.getrecursionlimit(), mid)
+            elif body == "decorator-raise":
+                helper(n1)(work)()
+            elif body == "generator-close":
+                def gen():
+                    with helper(n1):
+                        seen["inside"] = sys.getrecursionlimit()
+                        yield 1
+                        yield 2
+                g = gen()
+                next(g)
+                if data["cls"] == "GeneratorExit":
+                    g.close()
+                else:
+                    try:
+                        g.throw(cls("injected fault"))
+                    except BaseException as e:  # noqa: BLE001
+                        result["exc"] = e
+            else:
+                with helper(n1):
+                    work()
+        except BaseException as e:  # noqa: BLE001
+            result["exc"] = e
+        after = sys.getrecursionlimit()
+    finally:
+        sys.setrecursionlimit(before)
+    want_inside = n2 if body.startswith("nested") else n1
+    if seen.get("inside") != want_inside:
+        return {"what": f"inside the block the recursion limit is {seen.get('inside')}, not the requested {want_inside}"}
+    if "between" in seen and seen["between"][0] != seen["between"][1]:
+        return {"what": f"after the inner block the limit is {seen['between'][0]}, not the outer block's {seen['between'][1]}"}
+    if after != before:
+        return {"what": f"sys.getrecursionlimit() is {after} after the block was left by {data['cls']}; it was {before} before",
+                "surfaced": type(result.get("exc")).__name__}
+    e = result.get("exc")
+    if e is not None and not (type(e) is cls or isinstance(e.__cause__, cls)) and not issubclass(cls, Exception):
+        return {"what": f"{data['cls']} leaving the block surfaced as {type(e).__name__}"}
+    return None
+
+
+def helper_fault_cases(rep, rng, thorough):
+    apis = recursion_limit_apis()
+    rep.histogram["recursion-limit-apis:" + ",".join(f"{a}:{b}" for a, b in apis)] = 1
+    unknown = [x for x in apis if x[1] != "increased_recursion_limit"]
+    if unknown:
+        # the model says: only the public helper touches the limit, a solve never does
+        rep.corr_mismatches.append({"case": {"unmodelled function touching the recursion limit": unknown},
+                                    "impl": str(apis), "model": "[('core/autodiff.py', 'increased_recursion_limit')]"})
+    i = 0
+    for body in HELPER_BODIES:
+        for cls in CLASSES:
+            for dn1, dn2 in ((500, 900), (4000, -200), (0, 300)):
+                i += 1
+                real = body.startswith("solve") or body == "nested-solve"
+                if not thorough and ((real and (i % 3 or cls in EXC_CLASSES[3:] and i % 2)) or (dn1 == 0 and i % 2)):
+                    continue
+                if cls is StopIteration and (real or body == "generator-close"):
+                    continue
+                shape = "A" if "con" in body else "C"
+                if "hess" in body:
+                    method = "trust-constr" if i % 2 else "Newton-CG"
+                elif "con" in body:
+                    method = "SLSQP" if i % 2 else "trust-constr"
+                else:
+                    method = ["L-BFGS-B", "trust-constr", "BFGS", "Nelder-Mead"][i % 4] if "grad" not in body else ["L-BFGS-B", "BFGS"][i % 2]
+                data = {"body": body, "cls": cls.__name__, "dn1": dn1, "dn2": dn2, "shape": shape, "method": method}
+                bad = helper_case(data)
+                rep.evaluations += 1
+                k = f"helper:{body}:{'base' if cls in BASE_CLASSES else 'exception'}"
+                rep.histogram[k] = rep.histogram.get(k, 0) + 1
+                rep.nontrivial.add(hash(("helper", str(data))))
+                if bad is not None:
+                    bad.update({"kind_of_case": "helper", "data": data})
+                    rep.oracle_failures.append(bad)
+
+
 def run(ctx) -> core.Report:
     rng = ctx["rng"]
     thorough = ctx["tier"] == "thorough" or ctx["escalate"]
@@ -612,6 +765,7 @@ def run(ctx) -> core.Report:
                            "distinct runs in which the fault fired")
     fault_table(rep, rng, thorough)
     fault_histories(rep, rng, thorough)
+    helper_fault_cases(rep, rng, thorough)
     real_fault_cases(rep, rng, thorough)
     real_lp_faults(rep)
     rep.exhaustive = thorough
@@ -643,6 +797,10 @@ def search(ctx, rep):
         if len(seen) >= 4:
             break
     real_lp_faults(r2)
+    if r2.oracle_failures:
+        return r2.oracle_failures[0]
+    helper_fault_cases(r2, rng, True)
+    r2.corr_mismatches.clear()
     if r2.oracle_failures:
         return r2.oracle_failures[0]
     # bounded (≈2 min): the quick fault table with another seed (its oracle half does not use the model),
@@ -680,6 +838,10 @@ def replay(payload) -> bool:
                                   None, r1, r2, lr)
             if nxt != ref:
                 bad = {"what": "next solve differs from twin", "after_fault": nxt, "twin": ref}
+        print(bad)
+        return bad is None
+    if kind == "helper":
+        bad = helper_case(f["data"])
         print(bad)
         return bad is None
     if kind == "history":
